@@ -577,6 +577,7 @@ cpc_sketch_alloc<A> cpc_sketch_alloc<A>::deserialize(std::istream& is, uint64_t 
     throw std::invalid_argument("Possible corruption: family: expected "
         + std::to_string(FAMILY) + ", got " + std::to_string(family_id));
   }
+  check_lg_k(lg_k);
   if (seed_hash != compute_seed_hash(seed)) {
     throw std::invalid_argument("Incompatible seed hashes: " + std::to_string(seed_hash) + ", "
         + std::to_string(compute_seed_hash(seed)));
@@ -671,6 +672,7 @@ cpc_sketch_alloc<A> cpc_sketch_alloc<A>::deserialize(const void* bytes, size_t s
     throw std::invalid_argument("Possible corruption: family: expected "
         + std::to_string(FAMILY) + ", got " + std::to_string(family_id));
   }
+  check_lg_k(lg_k);
   if (seed_hash != compute_seed_hash(seed)) {
     throw std::invalid_argument("Incompatible seed hashes: " + std::to_string(seed_hash) + ", "
         + std::to_string(compute_seed_hash(seed)));
